@@ -299,6 +299,7 @@ func init() {
 			return []mon.Family{
 				{Name: "patterns", Env: 4, N: len(c15Offsets) * len(c15Patterns) * c.Pick(100, 6000), Run: c15Patterned},
 				{Name: "long-reclaim", Env: 1, N: c.Pick(4, 64), Run: c15Long},
+				{Name: "many-live-long", Env: 1, NoCold: true, N: c.Pick(3, 40), Run: c15ManyLive},
 				{Name: "two-live-bitmaps", Env: 4, N: c.Pick(300, 30000), Run: c15TwoLive},
 				{Name: "top-of-int64", Env: 2, N: c.Pick(200, 20000), Run: c15TopOfInt64},
 				{Name: "tail>=2^31-bits", NoCold: true, N: c.Pick(0, 1) * b2i(c.Base() != "386"), Run: c15HugeTail}, // 1 GiB: thorough only, not in a 32-bit address space
@@ -626,4 +627,78 @@ func c15HugeTail(w *mon.W, _ int) {
 	w.Bucket("tail>=2^31-bits")
 	w.Distinct(gen.Hash64(0x7a11, 1))
 	w.Sample(func() interface{} { return mon.D{"what": "stored tail longer than 2^32 bits", "sets": far} })
+}
+
+// c15ManyLive (round 11): four to six TailBitmaps with long tails (bits far ahead set first, so the word array has been
+// re-grown to a large capacity) are filled forward in interleaved chunks, so that they cross the 65 536-bit reclaim
+// threshold one after the other in an order that differs from their creation order; then new bitmaps are created and
+// used. All of them are compared with their models throughout: whatever the library recycles between bitmaps (a free
+// list of word chunks was seeded that popped the wrong entry) must not make one bitmap forget or invent bits.
+func c15ManyLive(w *mon.W, idx int) {
+	r := w.Rng
+	k := 4 + idx%3
+	const n = 70000
+	var ms []*c15Mon
+	next := make([]int64, k)
+	for i := 0; i < k; i++ {
+		o := c15Offsets[r.Intn(4)]
+		c := c15New(w, o, true)
+		ms = append(ms, c)
+		for _, far := range []int64{n + 100000 + int64(r.Intn(50000)), n + 64, 70000, 96063 + int64(r.Intn(1000))} {
+			if !c.Set(o + far) {
+				return
+			}
+		}
+		next[i] = o
+	}
+	live := k
+	done := make([]bool, k)
+	for live > 0 {
+		i := r.Intn(k)
+		if done[i] {
+			continue
+		}
+		c := ms[i]
+		chunk := int64(r.Pick(64, 1000, 5000, 20000, 66000))
+		for b := int64(0); b < chunk; b++ {
+			if !c.Set(next[i]) {
+				return
+			}
+			next[i]++
+		}
+		w.Tick()
+		if next[i] >= c.m.o+n {
+			done[i] = true
+			live--
+		}
+		for _, x := range ms {
+			if !x.quiesce() {
+				return
+			}
+		}
+	}
+	// new bitmaps after the old ones have reclaimed: the old ones keep their bits
+	for j := 0; j < 3; j++ {
+		c := c15New(w, c15Offsets[r.Intn(4)], true)
+		for b := int64(0); b < 300; b++ {
+			if !c.Set(c.tb.Offset + int64(r.Intn(3000))) {
+				return
+			}
+		}
+		ms = append(ms, c)
+		for _, x := range ms {
+			if !x.quiesce() {
+				return
+			}
+		}
+		w.Tick()
+	}
+	for _, x := range ms {
+		x.finish("many-live-long")
+	}
+	w.Bucket("many-live-long-bitmaps")
+	w.Distinct(gen.Hash64(0x3a4e, uint64(idx), uint64(k)))
+	w.Sample(func() interface{} {
+		return mon.D{"what": "TailBitmaps with long tails filled interleaved, then new ones created", "bitmaps": len(ms), "bits_each": n}
+	})
 }
